@@ -1,7 +1,7 @@
 /-
 C01 — PerfectMatchingPrinciple(G) on an arbitrary simple graph object.
 -/
-import Lemmas.FamGraphInv
+import Lemmas.C01GraphInv
 namespace Cnfgen.C01
 open Cnfgen Cnfgen.Fam
 
